@@ -240,13 +240,31 @@ fn check(ctx: &Ctx, c: &Case) -> PResult {
         };
         let mname = format!("{m:?}");
         let mname = mname.split(|ch: char| !ch.is_alphanumeric()).next().unwrap_or("").to_string();
-        // statement-equivalent mutants are not binding failures
-        let same_statement = other.rv.comm == orig.rv.comm
+        // the vector the near-miss statement is naturally made of: the original
+        // values by ROW, zero on rows that carry no original public input
+        let aligned: Vec<F> = other
+            .rv
+            .pi_rows
+            .iter()
+            .map(|r| orig.rv.pi_rows.iter().position(|o| o == r).map(|k| pi[k]).unwrap_or(F::zero()))
+            .collect();
+        // statement-equivalent mutants are not binding failures: identical key
+        // (public-input rows are not part of it), identical non-zero
+        // public-input map AND the same public-input vector (a zero-valued
+        // public input moved to another row)
+        let same_key = other.rv.comm == orig.rv.comm
             && other.rv.constraints == orig.rv.constraints
             && other.pi_map == orig.pi_map
             && other.layout.rows.len() == orig.layout.rows.len();
-        if same_statement {
-            ctx.excluded(&format!("near-miss {mname}: same relation (identical key, zero-valued public inputs only)"));
+        if same_key && other.rv.pi_rows.len() == orig.rv.pi_rows.len() {
+            ctx.excluded(&format!("near-miss {mname}: same relation and same vector (identical key, a zero-valued public input on another row)"));
+            continue;
+        }
+        if same_key {
+            // a zero-valued public-input row more or fewer: the key and PI(X)
+            // are the same, but the statement's vector has another length and
+            // every entry (zero or not) is absorbed by the transcript
+            c03::compare(ctx, &format!("near-miss circuit ({mname}: zero-valued public-input row added/removed, aligned vector)"), &other.verifier, &other.rv, &bytes, &aligned, v3, Some(false))?;
             continue;
         }
         if other.verifier.to_bytes() == orig.verifier.to_bytes() {
@@ -254,10 +272,13 @@ fn check(ctx: &Ctx, c: &Case) -> PResult {
             continue;
         }
         // offer the proof with the original public inputs, padded/truncated to
-        // the near-miss circuit's count
+        // the near-miss circuit's count, and aligned by row
         let mut p2 = pi.clone();
         p2.resize(other.rv.pi_rows.len(), F::zero());
         c03::compare(ctx, &format!("near-miss circuit ({mname})"), &other.verifier, &other.rv, &bytes, &p2, v3, Some(false))?;
+        if aligned != p2 {
+            c03::compare(ctx, &format!("near-miss circuit ({mname}, vector aligned by row)"), &other.verifier, &other.rv, &bytes, &aligned, v3, Some(false))?;
+        }
     }
 
     // labels
